@@ -16,6 +16,7 @@
   Core Lean only.
 -/
 import SfModel.Basic
+import SfModel.ChmapVerdict
 namespace Sf.Command
 
 /-! ## platform constants (x86-64 Linux; compared with `sfh grid c17 consts` on every run) -/
@@ -235,6 +236,31 @@ def containerCommand (h : H) (cmd : Int) (size : Nat) : Res :=
     let d := if h.haveWritten then h.rf64Downgrade else decide (size ≠ 0)
     { ret := .exact (b2i d), err := some 0, h' := some { h with rf64Downgrade := d } }
   else { ret := .exact 0, err := some 0, h' := some h }
+
+/-- the ints of a channel map behind `data` (validated entries are 1 … 26: the unsigned reading is the value) -/
+def chanMapOf (m : Nat → Nat) (channels : Nat) : List Nat := (List.range channels).map fun i => rd32 m (4 * i)
+
+/-- case SFC_SET_CHANNEL_MAP_INFO.  The validated map is copied, then the container's handler is asked
+    (`Sf.ChmapVerdict.containerAccepts`: wavlike_gen_channel_mask / aiff_caf_find_channel_layout_tag; no handler = refused).
+    A refused map is freed again and psf->channel_map (with the handler's mask / tag) is what it was: no effect.
+    `keep = true` is the rule before that repair (KF-C09-CHMAP-REFUSED-KEPT): the refused map stayed on a handle that had none
+    (the model then did not know the container's answer: `among [0, 1]`). -/
+def chmapSet (keep : Bool) (h : H) (size : Nat) (data : Option Mem) : Res :=
+  let sh := some h
+  if h.haveWritten then { ret := .exact 0, err := some eHasData, h' := sh }
+  else guardEq (szInt * h.channels) size data sh 0 (some eBadParam) fun m =>
+    let k := chanExamined m.byte h.channels 0
+    let v := sext 32 (rd32 m.byte (4 * (k - 1)))
+    if k > 0 ∧ (v ≤ 0 ∨ v ≥ chanMapMax) then
+      { reads := [(0, szInt * k)], ret := .exact 0, err := some eBadParam, h' := sh }
+    else if keep then
+      { reads := [(0, szInt * k), (0, size)], ret := if h.hasCommand then .among [0, 1] else .exact 0,
+        h' := some { h with hasChanMap := true, metaEpoch := h.metaEpoch + 1 } }
+    else if h.hasCommand ∧ ChmapVerdict.containerAccepts h.container (chanMapOf m.byte h.channels) = true then
+      { reads := [(0, szInt * k), (0, size)], ret := .exact 1,
+        h' := some { h with hasChanMap := true, metaEpoch := h.metaEpoch + 1 } }
+    else
+      { reads := [(0, szInt * k), (0, size)], ret := .exact 0, h' := sh }
 
 /-! ## the switch -/
 
@@ -495,16 +521,7 @@ def withHandle (h : H) (cmd : Int) (size : Nat) (data : Option Mem) : Res :=
     if ¬ h.hasChanMap then { ret := .exact 0, err := some 0, h' := sh }
     else guardEq (szInt * h.channels) size data sh 0 (some eBadParam) fun _ =>
       { writes := [(0, size)], ret := .exact 1, err := some 0, h' := sh }
-  | .k1101 =>
-    if h.haveWritten then { ret := .exact 0, err := some eHasData, h' := sh }
-    else guardEq (szInt * h.channels) size data sh 0 (some eBadParam) fun m =>
-      let k := chanExamined m.byte h.channels 0
-      let v := sext 32 (rd32 m.byte (4 * (k - 1)))
-      if k > 0 ∧ (v ≤ 0 ∨ v ≥ chanMapMax) then
-        { reads := [(0, szInt * k)], ret := .exact 0, err := some eBadParam, h' := sh }
-      else
-        { reads := [(0, szInt * k), (0, size)], ret := if h.hasCommand then .among [0, 1] else .exact 0,
-          h' := some { h with hasChanMap := true, metaEpoch := h.metaEpoch + 1 } }
+  | .k1101 => chmapSet false h size data
   | .k1300 =>
     -- reads a double, then re-enters sf_command with SFC_SET_COMPRESSION_LEVEL / SFC_SET_OGG_PAGE_LATENCY
     guardEq szDouble size data sh 0 none fun _ =>
